@@ -1,6 +1,7 @@
 package vh
 
 import (
+	"context"
 	"fmt"
 	"net"
 	"sync"
@@ -45,15 +46,57 @@ type FakeForward struct {
 	SmallRecvBuf bool
 }
 
-// NewFakeForward starts a server on a free port (or on addr if given, to keep the port across generations).
-func NewFakeForward(addr string) (*FakeForward, error) {
-	if addr == "" {
-		addr = "127.0.0.1:0"
+// PortHolder keeps a TCP port reserved for this process without listening on it: a socket that is bound (with
+// SO_REUSEPORT) but never listens. While a FakeForward on the same port is closed ("upstream down"), connection attempts
+// get ECONNREFUSED and no other process can be given the port (several harness processes run at the same time).
+type PortHolder struct {
+	fd   int
+	Addr string
+}
+
+func reusePortControl(network, address string, c syscall.RawConn) error {
+	var serr error
+	if err := c.Control(func(fd uintptr) {
+		serr = syscall.SetsockoptInt(int(fd), syscall.SOL_SOCKET, 0xf /* SO_REUSEPORT */, 1)
+	}); err != nil {
+		return err
 	}
+	return serr
+}
+
+// NewPortHolder reserves a free loopback port.
+func NewPortHolder() (*PortHolder, error) {
+	fd, err := syscall.Socket(syscall.AF_INET, syscall.SOCK_STREAM, 0)
+	if err != nil {
+		return nil, err
+	}
+	if err := syscall.SetsockoptInt(fd, syscall.SOL_SOCKET, 0xf, 1); err != nil {
+		syscall.Close(fd)
+		return nil, err
+	}
+	if err := syscall.Bind(fd, &syscall.SockaddrInet4{Port: 0, Addr: [4]byte{127, 0, 0, 1}}); err != nil {
+		syscall.Close(fd)
+		return nil, err
+	}
+	sa, err := syscall.Getsockname(fd)
+	if err != nil {
+		syscall.Close(fd)
+		return nil, err
+	}
+	port := sa.(*syscall.SockaddrInet4).Port
+	return &PortHolder{fd: fd, Addr: fmt.Sprintf("127.0.0.1:%d", port)}, nil
+}
+
+// Release gives the port back.
+func (p *PortHolder) Release() { syscall.Close(p.fd) }
+
+// NewFakeForward starts a server on addr, which must be reserved by a PortHolder of this process.
+func NewFakeForward(addr string) (*FakeForward, error) {
+	lc := net.ListenConfig{Control: reusePortControl}
 	var ln net.Listener
 	var err error
 	for i := 0; i < 50; i++ {
-		ln, err = net.Listen("tcp", addr)
+		ln, err = lc.Listen(context.Background(), "tcp", addr)
 		if err == nil {
 			break
 		}
